@@ -178,7 +178,11 @@ def encode_sequence(content, error=None, version=None, mode=None, mask=None,
             # Data does fit into a usual QR Code but ignore the error silently,
             # guessed_version is None
             pass
-        if guessed_version and guessed_version <= (version or guessed_version):
+        if guessed_version and guessed_version <= (version or guessed_version) \
+                and (version is None or version == guessed_version
+                     # The character count indicators of the provided version may be longer
+                     # than the indicators of the version the content has been fitted into
+                     or consts.SYMBOL_CAPACITY[version][error] >= segments.bit_length_with_overhead(version, eci)):
             # Return iterable of size 1
             return [_encode(segments, error=error, version=(version or guessed_version),
                             mask=mask, eci=eci, boost_error=boost_error)]
